@@ -216,6 +216,11 @@ func SpecIDecByte(n int64, k int) byte { panic("abstract spec function") }
 //@   ensures one_bulk_string: (result == nil ==> nbulk == old(nbulk) + 1) && nbulk >= old(nbulk)
 //@   ensures stream_only_grows: wpos >= old(wpos)
 
+// what a caller in another package has to know about a writer: it was built by NewWriter (two scratch
+// buffers of its own) and no argument is one of those buffers
+//@ pred writerWF(w): w != nil && w.writer != nil && !samearray(w.lenBuf, w.numBuf)
+//@ pred argsApart(w, args): forall k int :: 0 <= k && k < len(args) ==> (hastype(args[k], "[]byte") ==> allocated(asbytes(args[k])) && !samearray(asbytes(args[k]), w.lenBuf) && !samearray(asbytes(args[k]), w.numBuf)) && (hastype(args[k], "net.IP") ==> allocated(astype(args[k], "net.IP")) && !samearray(astype(args[k], "net.IP"), w.lenBuf) && !samearray(astype(args[k], "net.IP"), w.numBuf))
+
 // ---- one command: '*' <decimal argument count> CRLF, then one bulk string per argument, in order ----
 
 //@ func Writer.WriteArgs
